@@ -817,6 +817,8 @@ class C04(AstKindProp):
                 t = r.choice(["int", "str", "float", "bool", "Optional[int]", "Optional[str]", "List[str]", "List[int]", "Literal['alpha', 'beta']"])
                 p = dict(p, typ=t)
                 p.pop("default", None)
+                if "doc" in p and " Defaults to " in p["doc"]:
+                    p["doc"] = p["doc"].split(" Defaults to ")[0]  # (the sentence of the default that is replaced)
                 d = G.gen_default(r, t, allow_code=False)
                 if d[0] == "val":
                     p["default"] = d[1]
